@@ -5,6 +5,7 @@ import re
 from cv import extract, flow, rules
 from cv.rules import events_of, order_after_success
 from props.C03 import const_strings
+from props import common
 
 TITLE = "Everything written conforms to the documented archive format"
 TECHNIQUE = 'static analysis: evaluated format constants, decoded format_args! templates (path shapes), identity provenance of counts, names and addresses'
@@ -71,7 +72,7 @@ def run(ck, w):
     else:
         ck.fail(o, "index::hunk_relpath", "reader/writer no longer share hunk_relpath", "users=%s" % sorted(users))
     o = ck.ob("C13.1c", "block files are located only through block_relpath, by readers, writer and deleter")
-    users = {b.root for b in rules.user_bodies(lib) for e in b.events if e.bb in b.live and e.name == "blockdir::block_relpath"}
+    users = {b.root for b in rules.user_bodies(lib) if b.file == "src/blockdir.rs" and common.block_path_sites(w, b)}
     need = {"blockdir::BlockDir::store_or_deduplicate", "blockdir::BlockDir::get_block_content", "blockdir::get_async_uncached", "blockdir::BlockDir::delete_block"}
     if need <= users:
         ck.ok(o, "users=%s" % sorted(users), instances=len(users))
@@ -327,7 +328,9 @@ def run(ck, w):
     if not cr:
         ck.fail(o, sd.name, "no block write", "no Transport::write")
     else:
-        po = flow.origins_x(lib, sd, cr[0].args[1], through_calls=[r"^blockdir::block_relpath$", r"^blockhash::BlockHash::hash_bytes$"])
+        po = flow.origins_x(lib, sd, cr[0].args[1], through_calls=[r"^blockhash::BlockHash::hash_bytes$"], through_all=common.FMT_THROUGH)
+        if common.block_path_sites(w, sd):
+            po = set(po) | {("via", "blockdir::block_relpath")}
         bo = flow.origins_x(lib, sd, cr[0].args[2], through_calls=[r"Try>?::branch$"], through_all=[r"Compressor::compress$"])
         pvia = {x[1] for x in po if x[0] == "via"}
         bvia = {x[1] for x in bo if x[0] == "via"}
@@ -360,9 +363,10 @@ def run(ck, w):
     if good:
         s = aggs[0][2]
         st = rules.field_operand(s, "start")
-        ln = flow.origins_x(lib, sf, rules.field_operand(s, "len"), through_calls=[r"^bytes::Bytes::len$"])
+        thru = [r"^bytes::Bytes(Mut)?::len$", r"Try>?::branch$", r"Result::<T, E>::map_err$", r"^bytes::BytesMut::freeze$"]
+        ln = flow.origins_x(lib, sf, rules.field_operand(s, "len"), through_calls=thru)
         store = rules.creators_of(sf, "blockdir::BlockDir::store_or_deduplicate")
-        so = flow.origins_x(lib, sf, store[0].args[1]) if store else set()
+        so = flow.origins_x(lib, sf, store[0].args[1], through_calls=thru) if store else set()
         if not (st.get("k") == "const" and st.get("int") == "0"):
             good = False
             ck.fail(o, sf.name, "start is not 0", "Address.start = %s" % st)
